@@ -67,6 +67,7 @@ func Finish(c *Ctx, o *Outcome, err error) int {
 	// Deduplicate by key; the first (smallest seed) representative is reported.
 	sort.SliceStable(o.Violations, func(i, j int) bool { return o.Violations[i].Key < o.Violations[j].Key })
 	seen := map[string]bool{}
+	var unknownKeys, knownKeys []string
 	unknown := 0
 	known := map[string]bool{}
 	for _, v := range o.Violations {
@@ -82,6 +83,7 @@ func Finish(c *Ctx, o *Outcome, err error) int {
 			continue
 		}
 		unknown++
+		unknownKeys = append(unknownKeys, v.Key)
 		if unknown > maxReported {
 			continue
 		}
@@ -110,6 +112,8 @@ func Finish(c *Ctx, o *Outcome, err error) int {
 			o.Evidence.Coverage = map[string]any{}
 		}
 		o.Evidence.Coverage["known_findings_matched"] = len(known)
+		o.Evidence.Coverage["violation_keys"] = unknownKeys
+		o.Evidence.Coverage["known_finding_keys"] = knownKeys
 		o.Evidence.Coverage["tree"] = build.TreeID()
 		if c.Replay == nil {
 			if err := o.Evidence.Write(); err != nil {
